@@ -4,8 +4,10 @@ P=$1; shift
 cd /repo || exit 9
 if [ -n "$(git status --porcelain --untracked-files=no)" ]; then echo "/repo not clean"; exit 9; fi
 git apply "$P" || { echo "patch does not apply"; exit 9; }
-trap 'git -C /repo checkout -- . ' EXIT
 cd /verif
+# the check rewrites evidence/<id>.json; evidence kept in /verif must come from the unchanged tree
+EV=$(mktemp -d); for id in "$@"; do cp evidence/$id.json $EV/ 2>/dev/null; done
+trap 'git -C /repo checkout -- . ; cp $EV/*.json /verif/evidence/ 2>/dev/null; rm -rf $EV' EXIT
 for id in "$@"; do
   ./check $id --tier ${TIER:-quick} > /tmp/seedtest_$id.log 2>&1; rc=$?
   echo "== $id rc=$rc"; grep -E "^(VIOLATION|KNOWN-FINDING|\[$id\] INCONCLUSIVE)" /tmp/seedtest_$id.log | head -8
